@@ -7,6 +7,11 @@ From Coq Require Import Strings.Byte.
 Import ListNotations.
 From JS Require Import Common.Wire Num.NumModel Num.NumSpec Num.NumProofs.
 
+(* exp_fits u: the library can represent the numeral - its exponent digits fit Go's int
+   (exp_in_int u, ParseInt) and the signed exponent e does not add more than
+   max_exponent_zeros = 10000 zeros to the written digits (setExp, fix dbc9afe):
+   e <= 10000 + (fraction digits written)  and  -e <= 10000 + (integer digits written).
+   The bound is exact: see C10_scan_refuses_large_exponent at the end of this file. *)
 Theorem C10_scan_render_value : forall u, wf_numeral u = true -> exp_fits u = true -> zero_int_then_exp u = false ->
   exists n, scan (render u) = Some n /\ canonical n /\ Qeq (number_value n) (numeral_value u).
 Proof. exact scan_render_value. Qed.
@@ -73,3 +78,39 @@ Theorem C10_parse_uint_refuses_overflow : forall bs, NumSpec.all_digits bs = tru
   (NumModel.two64 <= NumSpec.dec bs)%N -> NumModel.parse_uint bs = None.
 Proof. exact NumProofs.parse_uint_refuses_overflow. Qed.
 Print Assumptions C10_parse_uint_refuses_overflow.
+
+(* known finding C10-integer-by-spelling: "whether it counts as integer depends only on its
+   normalised decimal expansion" is false of Guess.IsInteger (model is_integer): 1.0 and 1.0e0
+   scan to the same canonical number, yet only the second counts as integer - a dot without an
+   exponent decides before the value is looked at.  (The repository's own tests pin it:
+   internal/json/guess_test.go lists 1.0 under float and 0.0e1 under integer.) *)
+Theorem C10_integer_by_spelling_refuted : exists a b,
+  scan a = scan b /\ scan a <> None /\ is_integer a = false /\ is_integer b = true.
+Proof.
+  exists [x31; x2e; x30], [x31; x2e; x30; x65; x30]. vm_compute. repeat split; discriminate.
+Qed.
+Print Assumptions C10_integer_by_spelling_refuted.
+
+(* what does hold: apart from that one spelling class the classification is the one of the value *)
+Theorem C10_integer_class_of_value : forall bs n, dot_without_exp bs = false -> scan bs = Some n ->
+  is_integer bs = Nat.eqb (n_exp n) 0 /\ is_float bs = negb (Nat.eqb (n_exp n) 0).
+Proof.
+  intros bs n Hd Hs. unfold is_integer, is_float. rewrite Hd, Hs. split; reflexivity.
+Qed.
+Print Assumptions C10_integer_class_of_value.
+
+(* the bound in exp_fits is exact, not a convenience: a well-formed numeral whose exponent fits
+   Go's int but breaks the bound is refused: the library never expands more than 10000 zeros.
+   (No zero_int_then_exp side condition: that shape is refused whatever its exponent.) *)
+Theorem C10_scan_refuses_large_exponent : forall u, wf_numeral u = true -> exp_in_int u = true ->
+  exp_fits u = false -> scan (render u) = None.
+Proof. exact scan_refuses_large_exponent. Qed.
+Print Assumptions C10_scan_refuses_large_exponent.
+
+(* non-vacuity: 1.5e10002 and 15e-10003 are well formed, fit Go's int, break the bound by one, and are refused *)
+Example C10_large_exponent_example :
+  let u := mknumeral false [x31] (Some [x35]) (Some (false, ENone, [x31; x30; x30; x30; x32])) in
+  let v := mknumeral false [x31; x35] None (Some (false, EMinus, [x31; x30; x30; x30; x33])) in
+  wf_numeral u = true /\ exp_in_int u = true /\ exp_fits u = false /\ scan (render u) = None /\
+  wf_numeral v = true /\ exp_in_int v = true /\ exp_fits v = false /\ scan (render v) = None.
+Proof. vm_compute. repeat split; reflexivity. Qed.
